@@ -147,6 +147,48 @@ def handleC09 (cmd : String) (args : List Sexp) : Option Sexp :=
         pure (tagged "ok" [tagged "batch" (out.batch.map ofNat),
           (match out.names with | none => .atom "nonames" | some ns => tagged "names" (ns.map .atom)),
           leafToSexp out.leaf])
+  | "c09.lazy_binop", [.atom mode, .list members, other, d] => do
+      -- members: ((paths of member 0) (paths of member 1) …); leaves of member i are named `(l 0 (i . path))`
+      let ms ← members.mapM paths?
+      let A : List (KV Sym) := ms.zipIdx.map (fun (ks, i) => ks.map (fun k => (k, Sym.l 0 (toString i :: k))))
+      let d ← dflt? d
+      let other : LazyOther Sym ← (match other with
+        | .list [.atom "same", .list bs] => do
+            let bms ← bs.mapM paths?
+            pure (LazyOther.sameStack (bms.zipIdx.map (fun (ks, i) => ks.map (fun k => (k, Sym.l 1 (toString i :: k))))))
+        | .list [.atom "split", .list bs] => do
+            let os ← bs.zipIdx.mapM (fun (b, i) => match b with
+              | .list [.atom "td", ks] => do
+                  let ks ← paths? ks
+                  pure (Other.td (ks.map (fun k => (k, Sym.l 1 (toString i :: k)))))
+              | .list [.atom "sc"] => some (Other.scalar (Sym.sc 1))
+              | _ => none)
+            pure (LazyOther.split os)
+        | .list [.atom "sc"] => some (LazyOther.scalar (Sym.sc 1))
+        | _ => none)
+      let r := if mode = "inplace" then lazyBinopInplaceRepaired f2 A other else lazyBinopRepaired f2 A other d
+      match r with
+      | .error e => pure (errSexp e)
+      | .ok R => pure (tagged "ok" (R.map (fun kv => .list (kv.map (fun (k, v) => .list [.list (k.map .atom), symToSexp v])))))
+  | "c09.clamp", [ks, lo, hi] => do
+      let self := mkKV 0 (← paths? ks)
+      let bound (side : Nat) : Sexp → Option (Bound Sym)
+        | .atom "none" => some .none
+        | .list [.atom "td", ks] => do pure (.td (mkKV side (← paths? ks)))
+        | .list [.atom "sc"] => some (.scalar (.sc side))
+        | _ => none
+      let lo ← bound 1 lo
+      let hi ← bound 2 hi
+      let f3 (x : Sym) (l h : Option Sym) : Sym :=
+        .ap [x, (match l with | some v => v | none => .sc 0), (match h with | some v => v | none => .sc 0)]
+      -- `(sc 0)` stands for Python None; one-sided forms are tagged so that the harness applies clamp_max / clamp_min
+      pure (kvToSexp (clamp (fun a b => .ap [.sc 91, a, b]) (fun a b => .ap [.sc 92, a, b]) f3 self lo hi))
+  | "c09.where", [ks, oks, pad] => do
+      let self := mkKV 0 (← paths? ks)
+      let other := mkKV 1 (← paths? oks)
+      let pad : Option Sym ← (match pad with | .atom "none" => some none | .atom "pad" => some (some (.sc 2)) | _ => none)
+      -- `(sc 7)`: the condition, `(sc 8)`: its negation
+      pure (kvToSexp (whereOp (fun c x y => .ap [c, x, y]) (.sc 7) (.sc 8) pad self other))
   | "c09.reduce_true", [.list batch, dim, keep] => do
       let batch ← nats? batch
       let dim ← dimArg? dim
@@ -157,6 +199,21 @@ def handleC09 (cmd : String) (args : List Sexp) : Option Sexp :=
       | .ok .feature => pure (tagged "ok" [.atom "feature"])
       | .ok (.dims c ds single kd) =>
         pure (tagged "ok" [tagged "dims" [ofNat c, ofNats ds, .atom (if single then "true" else "false"), keepToSexp kd]])
+  | "c09.reduce_all", [.atom op, .list leaves] => do
+      let op ← (match op with
+        | "sum" => some RedOp.sum | "nansum" => some .nansum | "prod" => some .prod | "mean" => some .mean
+        | "nanmean" => some .nanmean | "amax" => some .amax | "amin" => some .amin | _ => none)
+      let num? : Sexp → Option Num := fun s => match s with
+        | .atom "nan" => some none
+        | s => (asInt? s).map some
+      let kv : KV (List Num) ← leaves.mapM (fun l => match l with
+        | .list [k, .list vs] => do pure ((← path? k), (← vs.mapM num?))
+        | _ => none)
+      match reduceAll op kv with
+      | .nan => pure (.list [.atom "nan"])
+      | .int i => pure (tagged "int" [ofInt i])
+      | .ratio s n => pure (tagged "ratio" [ofInt s, ofNat n])
+      | .err => pure (.list [.atom "err"])
   | _, _ => none
 
 end TdVerif.Drive
